@@ -350,6 +350,8 @@ class Function:
         self.line = d.get("line", 0)
         self.end = d.get("end", 0)
         self.tk = d.get("tk")
+        self.decl = d.get("decl")          # declaration id: == `cdecl` of the calls resolved to this function
+        self.spec_of = d.get("spec_of")    # instantiated call operator of a generic lambda: decl id of its pattern
         self.body = d.get("body")
         self.params = d.get("params", [])
         self._byid = None
@@ -414,6 +416,38 @@ class Facts:
         self.diags = data.get("diags", [])
         self.tu = data.get("tu")
         self.functions = [Function(self, f) for f in data.get("functions", [])]
+        self._by_decl = None
+        self._specs = None
+
+    def by_decl(self, decl_id):
+        """the dumped function whose `decl` id is decl_id (== `cdecl` of a call resolved to it, `op_decl` /
+        an entry of `op_specs` of a Lambda node, `spec_of` of a lambda specialisation); None if not dumped"""
+        if self._by_decl is None:
+            idx = {}
+            for f in self.functions:
+                if f.decl is not None:
+                    idx.setdefault(f.decl, f)
+            self._by_decl = idx
+        return self._by_decl.get(decl_id)
+
+    def lambda_specs(self, x):
+        """instantiated call operators (tk 'inst': resolved body + CFG, same qn as the pattern) of a generic
+        lambda, in dump order.  x = Lambda node, the pattern call-operator Function (or one of its
+        specialisations), or the pattern's decl id (`op_decl`).  [] for a non-generic lambda.  The
+        specialisation called at a given site is `facts.by_decl(call["cdecl"])`."""
+        if isinstance(x, Function):
+            pid = x.spec_of if x.spec_of is not None else x.decl
+        elif isinstance(x, dict):
+            pid = x.get("op_decl")
+        else:
+            pid = x
+        if self._specs is None:
+            idx = {}
+            for f in self.functions:
+                if f.spec_of is not None:
+                    idx.setdefault(f.spec_of, []).append(f)
+            self._specs = idx
+        return list(self._specs.get(pid, []))
 
     def find(self, qn_re=None, name=None, cls_re=None, file_re=None, tk=None, full_re=None):
         out = []
